@@ -5,6 +5,6 @@ package internal
 import "bytes"
 
 // No-op twins of the hooks in verif_pool.go.
-func verifOnPool(string, any)         {}
+func verifOnPool(string, any)        {}
 func verifOnBufferPut(*bytes.Buffer) {}
 func verifOnBufferGet(*bytes.Buffer) {}
